@@ -16,6 +16,7 @@ import XsdataModel.Proofs.OccursSound
 import XsdataModel.Proofs.OccursList
 import XsdataModel.Proofs.OccursGroups
 import XsdataModel.Proofs.AttrsField
+import XsdataModel.Proofs.Derive
 
 namespace Props.C02
 open Py Xs.Gen
@@ -364,5 +365,110 @@ theorem element_required_default (d : ElemDecl) (hmin : d.min ≥ 1) (hmax : d.m
 
 example : elemField { fixed := some ['f'] } = some { init := false, default := .value ['f'] } :=
   element_required_default { fixed := some ['f'] } (by decide) rfl ['f'] rfl
+
+/-! ## 5. derived complex types: restriction overrides, extension
+
+Restriction: the class of the derived type re-declares the elements of its content model;
+`ValidateAttributesOverrides.validate_override` reconciles each with the inherited field of the same
+name (`Gen/Derive`: `validateOverride`, `effective`). The derived type's own decisions are sound
+for its content model by sections 1 and 3; the override may only *widen* them.
+Extension: the class keeps the python base class; the content model of the derived type is
+`sequence(base content, extension content)`. -/
+
+/-- **An override never narrows**: the field the derived class ends up with (its own, or the
+inherited one when `validate_override` removes the re-declaration) is a list whenever the
+re-declaration asks for a list, is optional exactly when the re-declaration is, and is prohibited
+exactly when the re-declaration is. So a non-list field of the derived class never has to hold two
+values and a required one is present in every document valid for the restricted type. -/
+theorem override_never_narrows (c p : OAttr) :
+    (c.isList = true → (effective c p).isList = true) ∧
+    (effective c p).isOptional = c.isOptional ∧
+    (effective c p).isProhibited = c.isProhibited :=
+  ⟨effective_list c p, effective_optional c p, effective_prohibited c p⟩
+
+/-- base `c*` restricted to `c` (1..1): the derived field becomes a list like the inherited one,
+and stays required -/
+example : effective { min := 1, max := 1 } { min := 0, max := maxsize } =
+    { min := 1, max := maxsize } := by decide
+
+/-- **The base class field never stops being a list** when `validate_override` changes it in place
+(it is turned into a list when a derived class re-declares the element as a list). -/
+theorem override_parent_stays_list (c p : OAttr) (h : p.isList = true) :
+    (validateOverride c p).2.isList = true :=
+  parent_stays_list c p h
+
+example : (validateOverride { min := 1, max := 1 } { min := 0, max := 5 }).2.isList = true :=
+  override_parent_stays_list _ _ (by decide)
+
+/-- a restriction that leaves out an optional element of its base: `prohibit_parent_attrs` gives the
+derived class a prohibited field (`max_occurs = 0`, rendered `init=False`, metadata type `Ignore`),
+so the strict parser rejects the element for the derived type -/
+theorem restriction_prohibits_omitted :
+    restrictClass [(['a'], { min := 1, max := 1 }), (['b'], { min := 0, max := 1 })]
+                  [(['a'], { min := 1, max := 1 })] =
+      ([(['b'], { min := 0, max := 0 })],
+       [(['a'], { min := 1, max := 1 }), (['b'], { min := 0, max := 1 })]) := by
+  decide
+
+/-- **Extension: inherited and own fields are sound for `sequence(base, extension)`** — a non-list
+field (of the base class, computed from the base content model `pa`, or of the derived class,
+computed from the extension's content model `pb`) never sees its element twice in a word of the
+derived type's content model. -/
+theorem extension_nonlist_sound (pa pb : Particle) (hd : (names pa ++ names pb).Nodup)
+    (w : List Str) (hw : Matches (.seq 1 1 [pa, pb]) w)
+    (sa sb : List Site) (ha : occurs (sites pa) = some sa) (hb : occurs (sites pb) = some sb)
+    (s : Site) (hs : s ∈ sa ++ sb) (hl : s.isList = false) : w.count s.name ≤ 1 :=
+  extension_nonlist_core pa pb hd w hw sa sb ha hb s hs hl
+
+/-- **Extension: a required non-list field finds its element exactly once** -/
+theorem extension_required_sound (pa pb : Particle) (hd : (names pa ++ names pb).Nodup)
+    (hwa : wf pa = true) (hwb : wf pb = true)
+    (w : List Str) (hw : Matches (.seq 1 1 [pa, pb]) w)
+    (sa sb : List Site) (ha : occurs (sites pa) = some sa) (hb : occurs (sites pb) = some sb)
+    (s : Site) (hs : s ∈ sa ++ sb) (hr : s.min ≥ 1) (hl : s.isList = false) :
+    w.count s.name = 1 :=
+  extension_required_core pa pb hd hwa hwb w hw sa sb ha hb s hs hr hl
+
+/-- base `(x)`, extension `(y?)` -/
+def extA : Particle := .seq 1 1 [.elem ['x'] 1 1]
+def extB : Particle := .seq 1 1 [.elem ['y'] 0 1]
+
+theorem ext_matches : Matches (.seq 1 1 [extA, extB]) [['x']] :=
+  matches_seq.2 ⟨[[['x']]], by decide, (by
+    intro z hz
+    rw [List.mem_singleton.1 hz]
+    exact seqOnce_cons.2 ⟨[['x']], [],
+      matches_seq.2 ⟨[[['x']]], by decide, (by
+        intro u hu
+        rw [List.mem_singleton.1 hu]
+        exact seqOnce_cons.2 ⟨[['x']], [], matches_elem.2 ⟨1, by decide, rfl⟩, seqOnce_nil.2 rfl, rfl⟩),
+        rfl⟩,
+      seqOnce_cons.2 ⟨[], [],
+        matches_seq.2 ⟨[[]], by decide, (by
+          intro u hu
+          rw [List.mem_singleton.1 hu]
+          exact seqOnce_cons.2 ⟨[], [], matches_elem.2 ⟨0, by decide, rfl⟩, seqOnce_nil.2 rfl, rfl⟩),
+          rfl⟩,
+        seqOnce_nil.2 rfl, rfl⟩, rfl⟩), rfl⟩
+
+theorem extA_occurs : occurs (sites extA) = some [
+    { name := ['x'], index := 0, min := 1, max := 1, path := [⟨.s, 1, 1, 1⟩], sequence := some 1 }] := by
+  decide
+
+theorem extB_occurs : occurs (sites extB) = some [
+    { name := ['y'], index := 0, min := 0, max := 1, path := [⟨.s, 1, 1, 1⟩], sequence := some 1 }] := by
+  decide
+
+/-- the hypotheses are satisfiable: the inherited field `x`, word `[x]` -/
+example : List.count ['x'] [['x']] = 1 :=
+  extension_required_sound extA extB (by decide) (by decide) (by decide) _ ext_matches _ _
+    extA_occurs extB_occurs
+    { name := ['x'], index := 0, min := 1, max := 1, path := [⟨.s, 1, 1, 1⟩], sequence := some 1 }
+    (by decide) (by decide) (by decide)
+
+example : List.count ['y'] [['x']] ≤ 1 :=
+  extension_nonlist_sound extA extB (by decide) _ ext_matches _ _ extA_occurs extB_occurs
+    { name := ['y'], index := 0, min := 0, max := 1, path := [⟨.s, 1, 1, 1⟩], sequence := some 1 }
+    (by decide) (by decide)
 
 end Props.C02
